@@ -79,7 +79,7 @@ def scrub(result):
             null_locations.append((kwargs, op))
         return scrub_op(op, args, kwargs)
     elif isinstance(result, dict) and not result:
-        return result
+        return {}
     elif isinstance(result, list):
         output = [rr for r in result for rr in [scrub(r)] if rr is not None]
 
